@@ -403,7 +403,7 @@ pub fn run_check<C: Codec>(prop: &Property, tier: Tier, seed: u64) -> i32 {
             Tier::Quick => 150,
             Tier::Thorough => 1500,
         });
-    let hang_s: u64 = 30;
+    let hang_s: u64 = std::env::var("VERIF_HANG_S").ok().and_then(|s| s.parse().ok()).unwrap_or(90);
     let known: Vec<KnownFinding> = load_known_findings::<C>()
         .into_iter()
         .filter(|k| k.property == prop.id && k.status == "known")
